@@ -330,7 +330,13 @@ func (tx *Tx) rollback() {
 	if tx.db == nil {
 		return
 	}
-	if tx.writable {
+	// If the meta page of this transaction has already been written (only the
+	// final sync failed), db.meta() designates this transaction's state and
+	// every later transaction builds on it. The freelist must then stay as
+	// this transaction left it: the pages it freed remain pending, because
+	// open read transactions may still use them.
+	metaWritten := tx.writable && tx.db.data != nil && tx.db.meta().Txid() == tx.meta.Txid()
+	if tx.writable && !metaWritten {
 		tx.db.freelist.Rollback(tx.meta.Txid())
 		// When mmap fails, the `data`, `dataref` and `datasz` may be reset to
 		// zero values, and there is no way to reload free page IDs in this case.
